@@ -194,13 +194,13 @@ Proof.
   apply Qcltb_true in Vsh, Vrate, Vcrate. apply Qcleb_true in Vaps, Vcom.
   unfold delta_nonsell in Hd, He. rewrite Hact in Hd, He.
   (* rounded *)
-  bind_as Hd as nshd Ed1. bind_as Hd as nalld Ed2. rewrite Hod in Hd.
+  bind_as Hd as nshd Ed1. bind_as Hd as nall0d Ed0. bind_as Hd as nalld Ed2. rewrite Hod in Hd.
   unfold local_value in Hd. bind_as Hd as vd Ed3. bind_as Ed3 as v1d Ed3a.
   bind_as Hd as cd Ed4. bind_as Hd as pd Ed5. bind_as Hd as nd Ed6.
   inversion Hd; subst dd; clear Hd.
   apply gez_mul_dec in Ed3a, Ed3, Ed4. apply gez_add_dec in Ed5, Ed6.
   (* exact *)
-  bind_as He as nshe Ee1. bind_as He as nalle Ee2. rewrite Hoe in He.
+  bind_as He as nshe Ee1. bind_as He as nall0e Ee0. bind_as He as nalle Ee2. rewrite Hoe in He.
   unfold local_value in He. bind_as He as ve Ee3. bind_as Ee3 as v1e Ee3a.
   bind_as He as ce Ee4. bind_as He as pe Ee5. bind_as He as ne Ee6.
   inversion He; subst de; clear He.
